@@ -78,3 +78,39 @@ func (m *monC10) OnTransition(t *Transition) []Violation {
 	}
 	return vs
 }
+
+// c10SignedTx is the Post step of the C10 plan: MsgAddAllowedBidder really signed by the would-be
+// bidder is delivered through InitChain / FinalizeBlock / Commit in several situations (auction waiting,
+// open, already listed, outsider) and the node must refuse every one of them, exactly like the emulation.
+func c10SignedTx(p *Plan, o ExecOpts, rs []*RunResult, ev *Evidence) ([]Violation, error) {
+	cfg := world.Config{Balances: stdBalances(), Params: params("2bcoin", "1bcoin", 1)}
+	fixedW := Op{Kind: "create_fixed", Signer: "auc1", StartPrice: "2", Sell: "10acoin", PayDenom: "bcoin", StartK: 1, EndK: 2}
+	batchO := Op{Kind: "create_batch", Signer: "auc1", StartPrice: "1", MinPrice: "0.5", Sell: "10acoin", PayDenom: "bcoin", StartK: 0, EndK: 2, MaxExt: 1, Rate: "0.5"}
+	msg := func(aid uint64, who, max string) Op { return Op{Kind: "msg_add_allowed", AID: aid, Bidder: who, Max: max} }
+	hists := [][]Op{
+		{fixedW, msg(0, "bid1", "5"), {Kind: "block", K: 1}, msg(0, "bid1", "5"), msg(0, "out1", "1"), {Kind: "place", Signer: "bid1", AID: 0, BidType: 1, Price: "2", Denom: "bcoin", Amt: "4"}, {Kind: "block", K: 2}},
+		{batchO, {Kind: "add_allowed", AID: 0, Bidder: "bid1", Max: "4"}, msg(0, "bid1", "10"), msg(0, "bid2", "10"),
+			{Kind: "place", Signer: "bid2", AID: 0, BidType: 3, Price: "1", Denom: "acoin", Amt: "3"}, {Kind: "place", Signer: "bid1", AID: 0, BidType: 3, Price: "1", Denom: "acoin", Amt: "3"}, {Kind: "block", K: 2}, msg(0, "bid2", "10"), {Kind: "block", K: 3}, msg(0, "bid2", "1")},
+		{msg(0, "bid1", "5"), fixedW, batchO, msg(1, "out1", "10"), msg(7, "bid1", "1")},
+	}
+	var vs []Violation
+	refused, accepted, blocks := 0, 0, 0
+	for _, h := range hists {
+		r := ReplayABCI(cfg, h)
+		if r.Err != "" {
+			return nil, fmt.Errorf("the emulation does not conform to the real ABCI pipeline on a C10 history (harness defect, not a verdict): %s", r.Err)
+		}
+		refused += r.Refused["msg_add_allowed"]
+		accepted += r.Accepted["msg_add_allowed"]
+		blocks += r.Blocks
+	}
+	if accepted > 0 {
+		vs = append(vs, Violation{Prop: "C10", Sig: "signed-transaction-adds-allow-list-entry", Detail: fmt.Sprintf("%d really signed MsgAddAllowedBidder transactions were accepted (code 0) by FinalizeBlock in a process that links the application like the node binary does", accepted)})
+	}
+	ev.Coverage["signed_msg_add_allowed_bidder_txs_refused_by_finalize_block"] = refused
+	ev.Coverage["signed_msg_add_allowed_bidder_txs_accepted"] = accepted
+	ev.Coverage["signed_tx_histories"] = len(hists)
+	return vs, nil
+}
+
+func init() { c10Binary = c10SignedTx }
